@@ -378,10 +378,18 @@ func goEnv() []string {
 }
 
 func (r *Replayer) build(pkgDir string) (string, string) {
-	if b, ok := r.bins[pkgDir]; ok {
-		return b, r.err[pkgDir]
+	return r.buildMode(pkgDir, false)
+}
+
+func (r *Replayer) buildMode(pkgDir string, race bool) (string, string) {
+	key := pkgDir
+	if race {
+		key += "#race"
 	}
-	ovDir := filepath.Join(r.workDir, "overlay", strings.ReplaceAll(pkgDir, "/", "_"))
+	if b, ok := r.bins[key]; ok {
+		return b, r.err[key]
+	}
+	ovDir := filepath.Join(r.workDir, "overlay", strings.ReplaceAll(key, "/", "_"))
 	os.MkdirAll(ovDir, 0o755)
 	repl := map[string]string{}
 	prefix := filepath.Join(r.e.repo, pkgDir) + string(filepath.Separator)
@@ -408,19 +416,25 @@ func (r *Replayer) build(pkgDir string) (string, string) {
 	jb, _ := json.Marshal(map[string]interface{}{"Replace": repl})
 	os.WriteFile(ovJSON, jb, 0o644)
 	bin := filepath.Join(ovDir, "replay.test")
-	cmd := exec.Command("go", "test", "-c", "-vet=off", "-overlay", ovJSON, "-o", bin, ".")
+	args := []string{"test", "-c", "-vet=off", "-overlay", ovJSON, "-o", bin}
+	if race {
+		args = append(args, "-race")
+	}
+	args = append(args, ".")
+	cmd := exec.Command("go", args...)
 	cmd.Dir = filepath.Join(r.e.repo, pkgDir)
 	cmd.Env = goEnv()
 	out, err := cmd.CombinedOutput()
-	r.bins[pkgDir] = bin
+	r.bins[key] = bin
 	if err != nil {
-		r.err[pkgDir] = "native build failed: " + string(out)
+		r.err[key] = "native build failed: " + string(out)
 	}
-	return bin, r.err[pkgDir]
+	return bin, r.err[key]
 }
 
 func (r *Replayer) Replay(pkgDir, harness, tape string, v *Violation) (bool, string) {
-	bin, berr := r.build(pkgDir)
+	race := strings.HasPrefix(v.Label, "concurrency:")
+	bin, berr := r.buildMode(pkgDir, race)
 	if berr != "" {
 		return false, berr
 	}
@@ -437,6 +451,14 @@ func (r *Replayer) Replay(pkgDir, harness, tape string, v *Violation) (bool, str
 		if strings.HasPrefix(l, "VERIF-REPLAY") {
 			line = l
 		}
+	}
+	if race {
+		// the footprint violation is confirmed natively by the race detector: the
+		// operation runs in two goroutines over the shared state
+		if strings.Contains(string(out), "DATA RACE") {
+			return true, "race detector: DATA RACE reported for the concurrent native run"
+		}
+		return false, "race detector reported nothing: " + line
 	}
 	if line == "" {
 		tail := string(out)
